@@ -253,9 +253,10 @@ theorem robofab_removed_from_lib (i : Input) (o : Output) (h1 : i.fmt = 1) (hl :
     decide +kernel
   have hk : (fun k => !Gen.robofabRemoved.contains k) = (fun k => !Spec.robofabKeys.contains k) := by
     funext k
-    congr 1
-    rw [Bool.eq_iff_iff, List.contains_iff_mem, List.contains_iff_mem]
-    exact ⟨hset.1 k, hset.2 k⟩
+    have e : Gen.robofabRemoved.contains k = Spec.robofabKeys.contains k := by
+      rw [Bool.eq_iff_iff, List.contains_iff_mem, List.contains_iff_mem]
+      exact ⟨hset.1 k, hset.2 k⟩
+    rw [e]
   have hlib : o.libKeys = (if i.reqLib then i.libKeys else []).filter (fun k => !Spec.robofabKeys.contains k) := by
     unfold load at h
     cases hf : fromFile i.fmt i.attrs with
